@@ -190,7 +190,7 @@ func (e *Exec) buildX(t *TxInfo) error {
 		if o.Addr != "$" {
 			to = e.w.AddrOf[o.Addr]
 		}
-		tx.TxOutputs = append(tx.TxOutputs, &protos.TxOutput{ToAddr: []byte(to), Amount: o.Amt.Bytes(), FrozenHeight: o.Frozen})
+		tx.TxOutputs = append(tx.TxOutputs, &protos.TxOutput{ToAddr: []byte(to), Amount: o.amtBytes(), FrozenHeight: o.Frozen})
 	}
 	tx.Coinbase = t.Coinbase
 	var err error
@@ -443,6 +443,24 @@ func (e *Exec) kvStr(n *chainlib.Node, k string) string {
 		return "DEL@" + ver
 	}
 	return v + "@" + ver
+}
+
+// poolOf: the pending transactions of node n as sorted tx indices (-2: unknown transaction, err: unreadable)
+func (e *Exec) poolOf(n *chainlib.Node) string {
+	txs, err := n.S.GetUnconfirmedTx(false)
+	if err != nil {
+		return "err"
+	}
+	var idx []int
+	for _, t := range txs {
+		if i, ok := e.w.TxByID[string(t.Txid)]; ok {
+			idx = append(idx, i)
+		} else {
+			idx = append(idx, -2)
+		}
+	}
+	sort.Ints(idx)
+	return fmt.Sprint(idx)
 }
 
 func (e *Exec) poolStr() string {
@@ -717,6 +735,11 @@ func (e *Exec) exec(line string) (ans string) {
 		e.caseOut = nil
 	}
 	e.caseOps = append(e.caseOps, line)
+	if op != "reset" && e.w != nil && e.w.Main != nil && e.w.Main.S == nil {
+		// a reopen failed earlier in this history (reported then): there is no node to ask
+		e.caseOut = append(e.caseOut, "node-gone")
+		return "node-gone"
+	}
 	if kv["fault"] == "1" {
 		// injected storage write error: the next write group (either database) fails
 		before := ""
@@ -817,7 +840,7 @@ func (e *Exec) exec1(op string, pos []string, kv map[string]string, line string)
 			if o.Addr != "$" {
 				to = w.AddrOf[o.Addr]
 			}
-			tx.TxOutputs = append(tx.TxOutputs, &protos.TxOutput{ToAddr: []byte(to), Amount: o.Amt.Bytes(), FrozenHeight: o.Frozen})
+			tx.TxOutputs = append(tx.TxOutputs, &protos.TxOutput{ToAddr: []byte(to), Amount: o.amtBytes(), FrozenHeight: o.Frozen})
 		}
 		t.Tx, err = chainlib.Sign(tx, e.acct(t.From))
 		if err != nil {
@@ -827,6 +850,9 @@ func (e *Exec) exec1(op string, pos []string, kv map[string]string, line string)
 		return "-"
 	case "race2":
 		// DoTx(b) is executed while DoTx(a) is about to write its batch (a deterministic point of a concurrent schedule)
+		if kv["y"] != "" {
+			return e.opRace3(pos, kv, line) // hold point inside TryLock (race3.go)
+		}
 		ta, tb := w.Txs[atoi(pos[0])], w.Txs[atoi(pos[1])]
 		var errB error
 		fired := false
@@ -854,6 +880,10 @@ func (e *Exec) exec1(op string, pos []string, kv map[string]string, line string)
 		e.checkPool(line)
 		e.checkState(line)
 		return errEnum(errA) + "," + errEnum(errB)
+	case "race3":
+		return e.opRace3(pos, kv, line)
+	case "flood":
+		return e.opFlood(pos, kv, line)
 	case "kvengine":
 		kvEngineCase(e.out, e.scratch, uint64(atoi(pos[0])), atoi(pos[1]))
 		return "-"
@@ -865,6 +895,7 @@ func (e *Exec) exec1(op string, pos []string, kv map[string]string, line string)
 		points := 0
 		for k := 0; k < 48; k++ {
 			if err := w.Main.Reopen(); err != nil {
+				e.violate("reopen-failed", "reopen failed: "+err.Error(), "")
 				return "error:" + err.Error()
 			}
 			reached, common, desc := selRaceAt(w.Main.S, addr, need, k, kv["x"] == "1")
@@ -986,6 +1017,17 @@ func (e *Exec) exec1(op string, pos []string, kv map[string]string, line string)
 		} else {
 			if reason == "" && !inPool && (res == "utxo" || res == "rwset" || res == "frozen" || res == "mismatch") {
 				e.violate("refused-although-current:"+res, fmt.Sprintf("tx %d refused as %s although all its inputs are current", t.Idx, res), "")
+			}
+			if reason == "" && !inPool && !e.faulting {
+				// (not when this very call was given a failing storage write) nothing else is in flight: a refusal for a lock, or any refusal that instances reopened on the same data do
+				// not repeat, is something an earlier request left behind
+				if res == "lock" {
+					e.violate("refused-although-current:lock", fmt.Sprintf("tx %d refused because a lock is held although nothing else is in flight and all its inputs are current", t.Idx), "")
+				}
+				e.lockRefusal(t, res)
+				if e.out != nil {
+					e.out.Count("dotx-refused-current:" + res)
+				}
 			}
 			after := e.observe(w.Main) + " pool=" + e.poolStr()
 			if after != before {
@@ -1216,6 +1258,7 @@ func (e *Exec) exec1(op string, pos []string, kv map[string]string, line string)
 		return ans + " T=" + strings.Join(mid, " || ") + fmt.Sprintf(" R=%d:", len(rep)) + last
 	case "reopen":
 		poolBefore := e.poolObs(w.Main)
+		idsBefore := e.implPool()
 		if err := w.Main.Reopen(); err != nil {
 			e.violate("reopen-failed", "reopen failed: "+err.Error(), "")
 			return "fail"
@@ -1227,6 +1270,10 @@ func (e *Exec) exec1(op string, pos []string, kv map[string]string, line string)
 			e.out.Count(fmt.Sprintf("reopen-pending:%d", min(len(e.implPool()), 3)))
 		}
 		e.checkState(line)
+		if after := e.implPool(); fmt.Sprint(after) != fmt.Sprint(idsBefore) {
+			e.violate("running-differs-from-reopened:pool", fmt.Sprintf("pending pool of the running node %v, of the reopened node %v", idsBefore, after), "")
+		}
+		e.checkPool(line)
 		return "ok"
 	case "truncate":
 		return e.opTruncate(atoi(pos[0]))
@@ -1246,7 +1293,7 @@ func (e *Exec) exec1(op string, pos []string, kv map[string]string, line string)
 			e.violate("copy-open-failed", "opening instances on a copy of the data failed: "+err.Error(), "")
 			return "fail"
 		}
-		a, b := e.observe(w.Main)+" L="+e.ledgerObsOf(w.Main), e.observe(c)+" L="+e.ledgerObsOf(c)
+		a, b := e.observe(w.Main)+" L="+e.ledgerObsOf(w.Main)+" pool="+e.poolOf(w.Main), e.observe(c)+" L="+e.ledgerObsOf(c)+" pool="+e.poolOf(c)
 		pa, pb2 := e.poolObs(w.Main), e.poolObs(c)
 		kvmem.Drop(c.Root)
 		if e.out != nil {
@@ -1325,6 +1372,7 @@ func (e *Exec) checkPool(tag string) {
 		e.violate("pool-unexpected", fmt.Sprintf("after %s: pool is %v, harness expects %v", tag, impl, mine), "")
 		return
 	}
+	e.pendingRecords(tag)
 	usedU := map[string]int{}
 	usedK := map[string]int{}
 	add := func(ti int) {
